@@ -22,6 +22,7 @@ from .. import models, pipeline, quant, tlc
 from . import manager
 from . import deton
 from . import configload
+from . import solverbuild
 from . import setup as setupdrv
 
 LEVEL = "model_checking"
@@ -423,7 +424,8 @@ def run(chk, tier, seed):
         a4 = pool.map_async(scripted_iterations, [(seed * 100 + q, 150 if tier == "quick" else 600) for q in range(2 if tier == "quick" else 8)], chunksize=1)
         a5 = pool.map_async(deton.scripted_searches, [(seed * 100 + q, 100 if tier == "quick" else 400) for q in range(2 if tier == "quick" else 8)], chunksize=1)
         a6 = pool.map_async(setupdrv.scenario, setupdrv.scenarios(tier, seed), chunksize=1)
-        traces, hevs, refs, scripted, dsearch, straces = a1.get(), a2.get(), a3.get(), a4.get(), a5.get(), a6.get()
+        a7 = pool.map_async(solverbuild.worker, solverbuild.jobs(tier, seed), chunksize=1)
+        traces, hevs, refs, scripted, dsearch, straces, sbuild = a1.get(), a2.get(), a3.get(), a4.get(), a5.get(), a6.get(), a7.get()
     htraces = []
     for i, (b, evs) in enumerate(zip(behs, hevs)):
         used = {(op["p"], "info") for op in b if op["op"] == "Setup" and op["kind"] == "good"} | {(pt, op["c"]) for op in b for pt in _points_of_calls(b, op)}
@@ -472,6 +474,20 @@ def run(chk, tier, seed):
                   label="documented counterexample: a set-up failing after validatePhaseInput has already replaced phases / thermodynamics")
     chk.add_validation(tlc.validate("TraceSetup.tla", "TraceSetup.cfg", straces), straces, what="set-up call")
     chk.extra.update(setup_calls_validated=len(straces), setup_outcomes={o: sum(1 for t in straces if t["ev"][-1].get("out") == o) for o in sorted({t["ev"][-1].get("out") for t in straces})})
+    # what a wall solver is built from: every setting reaches the object that uses it, at its value at the time of the call
+    chk.add_model(tlc.run_model("SolverBuild.tla", "SolverBuild.cfg", timeout=900),
+                  label="solver construction: error exits in the code's order, tail rule, detonation window, no stale or cached setting, a failing call hands out nothing")
+    chk.add_model(tlc.run_model("SolverBuild.tla", "SolverBuildEvenN.cfg", timeout=900), expect_violation="EvenNNeverStored",
+                  label="documented counterexample: an even momentum-grid size sits in the configuration unnoticed until a solver is built")
+    btraces = [t for g in sbuild for t in g]
+    chk.add_validation(tlc.validate("TraceSolverBuild.tla", "TraceSolverBuild.cfg", btraces), btraces, what="solver construction history")
+    bouts = {}
+    for t in btraces:
+        for e in t["ev"]:
+            if e["e"] in ("Build", "Solve", "Deton"):
+                bouts[e["e"] + ":" + e["out"]] = bouts.get(e["e"] + ":" + e["out"], 0) + 1
+    chk.extra.update(solver_build_histories=len(btraces), solver_build_calls=bouts,
+                     solver_build_settings_changed=sum(1 for t in btraces for e in t["ev"] if e["e"] == "Set"))
     # the detonation search on scripted pressure functions, against DetonSearch.tla
     for o in ("TRUE", "FALSE"):
         chk.add_model(tlc.run_model("DetonSearch.tla", f"DetonSearch_{o}.cfg", timeout=1200),
